@@ -3,7 +3,9 @@
    Triangle3Buffer / Line2Buffer state machine and the consumer loops) and
    Sys/Pipeline.v (producer, rendezvous channel, writer goroutine, main). *)
 From Coq Require Import List Arith NArith Permutation.
-From Sdfx Require Import Sys.Buffer Sys.Pipeline Generated.BufferConsts.
+From Sdfx Require Import Sys.Buffer.
+From Sdfx Require Import Sys.Pipeline.
+From Sdfx Require Import Generated.BufferConsts.
 Import ListNotations.
 
 (* At every moment, after ANY sequence of Write / Close operations (empty writes,
